@@ -5,6 +5,7 @@ import Rare.Model.C06ErrTrace
 import Rare.Drv.C04
 import Rare.Model.C06Read
 import Rare.Model.C06Inflate
+import Rare.Model.C06File
 /-!
 Line protocol of C06.
 
@@ -88,7 +89,9 @@ def parseFile (s : String) : Option (Path × FileOracle) :=
     let dec ← Hex.dec dec
     let fl ← bool? fl
     let _ := h   -- what gzip.NewReader said at generation time: the model decides from the content (`Gz.readHeader`)
-    pure (p, ⟨o, d, c, pr, dec, fl⟩)
+    -- … and what compress/gzip yielded (`dec`, `fl`): the model decompresses the content itself (`Gz.gunzip`)
+    let _ := (dec, fl)
+    pure (p, (⟨o, d, c, pr, [], false⟩ : FileOracle).withModelGzip)
   | _ => none
 
 def parseFiles (s : String) : Option (List (Path × FileOracle)) :=
